@@ -256,6 +256,20 @@ func Render(s *Spec, o RenderOpts) string {
 		out = append(out, precs[pi:]...)
 		blocks = out
 	}
+	// several tokens in one %token declaration (same tag): "%token <t> A 300 B" - legal yacc, merges adjacent lines
+	if l.r != nil {
+		var merged []block
+		for _, bl := range blocks {
+			if n := len(merged); n > 0 && bl.prec < 0 && merged[n-1].prec < 0 && l.r.Chance(1, 2) {
+				if tail, ok := mergeTokenDecl(merged[n-1].text, bl.text); ok {
+					merged[n-1].text = tail
+					continue
+				}
+			}
+			merged = append(merged, bl)
+		}
+		blocks = merged
+	}
 	for _, bl := range blocks {
 		b.WriteString(bl.text + l.nl())
 	}
@@ -411,4 +425,37 @@ func tsEpilogue(s *Spec, o RenderOpts) string {
 	}
 	b.WriteString("\t}\n\treturn -1\n}\n")
 	return b.String()
+}
+
+// mergeTokenDecl joins "%token[ <tag>] X.." and "%token[ <tag>] Y.." into one declaration when both carry the same tag prefix.
+func mergeTokenDecl(a, b string) (string, bool) {
+	split := func(d string) (tag, rest string, ok bool) {
+		if !strings.HasPrefix(d, "%token") {
+			return "", "", false
+		}
+		d = d[len("%token"):]
+		if strings.ContainsAny(d, "/\n") { // a comment or line break inside: leave alone
+			return "", "", false
+		}
+		t := strings.TrimLeft(d, " \t")
+		if strings.HasPrefix(t, "<") {
+			i := strings.Index(t, ">")
+			if i < 0 {
+				return "", "", false
+			}
+			return t[:i+1], t[i+1:], true
+		}
+		return "", d, true
+	}
+	ta, ra, ok1 := split(a)
+	tb, rb, ok2 := split(b)
+	if !ok1 || !ok2 || ta != tb {
+		return "", false
+	}
+	// NAME 'c' would declare 'c' as an alias of NAME, not as a token of its own
+	if strings.HasPrefix(strings.TrimSpace(rb), "'") {
+		return "", false
+	}
+	_ = ra
+	return a + " " + strings.TrimSpace(rb), true
 }
